@@ -655,6 +655,50 @@ fn xml_declaration_separator(xml: &str) -> Option<usize> {
         _ => None,
     }
 }
+
+/// The tokenizer error `e` carries rows and columns in `respelled`; give the
+/// rows and columns of the same offsets in `source` (the two texts differ in
+/// one ASCII character only, so offsets are the same).
+fn error_in_source(e: xmlparser::Error, respelled: &str, source: &str) -> xmlparser::Error {
+    use xmlparser::{Error as E, StreamError as S, TextPos};
+    let at = |pos: TextPos| -> TextPos {
+        let mut offset = 0;
+        for (i, line) in respelled.split('\n').enumerate() {
+            if i + 1 == pos.row as usize {
+                offset += line
+                    .chars()
+                    .take(pos.col as usize - 1)
+                    .map(|c| c.len_utf8())
+                    .sum::<usize>();
+                break;
+            }
+            offset += line.len() + 1;
+        }
+        xmlparser::Stream::from(source).gen_text_pos_from(offset)
+    };
+    let stream = |e: S| match e {
+        S::NonXmlChar(c, p) => S::NonXmlChar(c, at(p)),
+        S::InvalidChar(a, b, p) => S::InvalidChar(a, b, at(p)),
+        S::InvalidCharMultiple(a, b, p) => S::InvalidCharMultiple(a, b, at(p)),
+        S::InvalidQuote(a, p) => S::InvalidQuote(a, at(p)),
+        S::InvalidSpace(a, p) => S::InvalidSpace(a, at(p)),
+        S::InvalidString(a, p) => S::InvalidString(a, at(p)),
+        other => other,
+    };
+    match e {
+        E::InvalidDeclaration(s, p) => E::InvalidDeclaration(stream(s), at(p)),
+        E::InvalidComment(s, p) => E::InvalidComment(stream(s), at(p)),
+        E::InvalidPI(s, p) => E::InvalidPI(stream(s), at(p)),
+        E::InvalidDoctype(s, p) => E::InvalidDoctype(stream(s), at(p)),
+        E::InvalidEntity(s, p) => E::InvalidEntity(stream(s), at(p)),
+        E::InvalidElement(s, p) => E::InvalidElement(stream(s), at(p)),
+        E::InvalidAttribute(s, p) => E::InvalidAttribute(stream(s), at(p)),
+        E::InvalidCdata(s, p) => E::InvalidCdata(stream(s), at(p)),
+        E::InvalidCharData(s, p) => E::InvalidCharData(stream(s), at(p)),
+        E::UnknownToken(p) => E::UnknownToken(at(p)),
+    }
+}
+
 impl Xot {
     /// Parse a string containing XML into a document node. Retain span information.
     ///
@@ -665,6 +709,9 @@ impl Xot {
         // The tokenizer only recognises an XML declaration that continues
         // with a space after `<?xml`; XML allows a tab or a line end there as
         // well. Replacing that one character by a space changes no offset.
+        // It does change rows and columns if the character is a line feed:
+        // the positions inside tokenizer errors are translated back.
+        let source = xml;
         let respelled;
         let xml = match xml_declaration_separator(xml) {
             Some(at) => {
@@ -678,7 +725,12 @@ impl Xot {
             None => xml,
         };
         let tokenizer = Tokenizer::from(xml);
-        let (span_info, builder) = self._parse(tokenizer)?;
+        let (span_info, builder) = self._parse(tokenizer).map_err(|e| match e {
+            ParseError::XmlParser(inner, position) if source != xml => {
+                ParseError::XmlParser(error_in_source(inner, xml, source), position)
+            }
+            other => other,
+        })?;
         if let Some(element_builder) = &builder.element_builder {
             // the input ended inside a start tag
             return Err(ParseError::UnclosedTag(element_builder.span));
